@@ -266,6 +266,22 @@ Section Oracle.
     - discriminate.
   Qed.
 
+  Lemma check_signature_inv_gen : forall allowed ks t parsed alg,
+    check_signature verify allowed ks t parsed = Ok alg ->
+    exists e p k, tok_sigs t = [e] /\ tok_payload t = Some p /\ keyset_verify verify ks e p = Some k.
+  Proof.
+    intros allowed ks t parsed alg H. unfold check_signature in H.
+    destruct t as [e p|sigs p|]; cbn [jose_parse] in H.
+    - destruct (string_in (se_alg e) (effective_algs allowed)); [|discriminate].
+      destruct (keyset_verify verify ks e p) as [k|] eqn:Hk; [|discriminate].
+      exists e, p, k. now repeat split.
+    - destruct (all_algs_allowed (effective_algs allowed) sigs); [|discriminate].
+      destruct sigs as [|e [|e2 r]]; try discriminate.
+      destruct (keyset_verify verify ks e p) as [k|] eqn:Hk; [|discriminate].
+      exists e, p, k. now repeat split.
+    - discriminate.
+  Qed.
+
   (* a published key set (provider's own or remote JWKS) never accepts HS*, none
      or anything outside RS / PS / ES / EdDSA, whatever the allow-list says *)
   Theorem hmac_rejected : forall allowed ks t parsed alg,
@@ -376,6 +392,138 @@ Section Oracle.
     apply payload_binding in H as [b2 [c2 [e [key [Hm2 [_ [_ [Hp2 _]]]]]]]].
     rewrite Hm in Hm2. inversion Hm2; subst. rewrite Hp in Hp2. inversion Hp2 as [Heq].
     exfalso. apply Hne. now symmetry.
+  Qed.
+  (* ---------- whose request object: the client of the authorization request ---------- *)
+  Lemma lookup_unnamed_none : forall store kid,
+    forallb (fun x => negb (fst (fst x) =s "")) store = true -> profile_lookup store "" kid = None.
+  Proof.
+    intros store kid Hn. destruct (profile_lookup store "" kid) as [k|] eqn:Hl; [|reflexivity].
+    apply profile_lookup_in in Hl as [x [Hin [Hc _]]].
+    rewrite forallb_forall in Hn. apply Hn in Hin. rewrite Hc in Hin. discriminate.
+  Qed.
+
+  (* ParseRequestObject hands back claims only if the object was verified with the
+     key set bound to the client of the AUTHORIZATION REQUEST (no client has the
+     empty id): naming another registered client as issuer - with or without a
+     client_id claim - and signing with that client's key is not believed *)
+  Theorem request_object_bound : forall a issuer ks t m c' alg,
+    store_named ks = true ->
+    parse_request_object verify a issuer ks t m = Accept c' alg ->
+    exists bytes c sa,
+      m = MidOk bytes c /\ c' = ro_project a c
+      /\ bind_profile ks (c_iss c) = bind_profile ks (a_client a)
+      /\ check_signature verify [] (bind_profile ks (a_client a)) t bytes = Ok sa.
+  Proof.
+    intros a issuer ks t m c' alg Hn H. unfold parse_request_object in H.
+    destruct m as [| | | |bytes c]; try discriminate.
+    destruct (negb (c_client_id c =s "") && negb (c_client_id c =s a_client a)) eqn:H1;
+      cbn [andthen] in H; [discriminate|].
+    destruct (negb (c_rtype c =s "") && negb (c_rtype c =s a_rtype a)); cbn [andthen] in H; [discriminate|].
+    destruct (c_iss c =s c_client_id c) eqn:H2; cbn [andthen] in H; [|discriminate].
+    destruct (string_in issuer (c_aud c)); cbn [andthen] in H; [|discriminate].
+    destruct (check_signature verify [] (bind_profile ks (c_iss c)) t bytes) as [sa|] eqn:Hs; [|discriminate].
+    inversion H; subst c' alg. apply seqb_eq in H2.
+    assert (Hb : bind_profile ks (c_iss c) = bind_profile ks (a_client a)).
+    { apply andb_false_iff in H1 as [H1|H1]; apply negb_false_iff in H1; apply seqb_eq in H1.
+      - (* no client_id claim: then no issuer either, and client "" has no key *)
+        rewrite H1 in H2. rewrite H2 in Hs |- *.
+        destruct ks as [o|cc s sk|client store|k0]; try reflexivity.
+        exfalso. cbn [bind_profile store_named] in *.
+        apply check_signature_inv_gen in Hs as [e [p [k [_ [_ Hk]]]]].
+        cbn [keyset_verify] in Hk. unfold profile_verify in Hk.
+        now rewrite (lookup_unnamed_none _ _ Hn) in Hk.
+      - now rewrite H2, H1. }
+    exists bytes, c, sa. split; [reflexivity|]. split; [reflexivity|]. split; [exact Hb|]. now rewrite <- Hb.
+  Qed.
+
+  Theorem request_object_client_bound : forall a issuer x store t m c' alg,
+    forallb (fun y => negb (fst (fst y) =s "")) store = true ->
+    parse_request_object verify a issuer (KSProfile x store) t m = Accept c' alg ->
+    exists bytes c e key,
+      m = MidOk bytes c /\ c' = ro_project a c /\ c_iss c = a_client a
+      /\ tok_sigs t = [e] /\ tok_payload t = Some bytes
+      /\ In (a_client a, se_kid e, key) store
+      /\ verify key e bytes = true.
+  Proof.
+    intros a issuer x store t m c' alg Hn H.
+    apply request_object_bound in H as [bytes [c [sa [Hm [Hc [Hb Hs]]]]]]; [|exact Hn].
+    cbn [bind_profile] in Hb, Hs. inversion Hb as [Hiss].
+    pose proof Hs as Hs0. apply check_signature_sound in Hs0 as [e [k [H1 [H2 [_ [_ [_ [_ Hv]]]]]]]].
+    apply check_signature_inv_gen in Hs as [e' [p [k' [H1' [H2' Hk]]]]].
+    rewrite H1 in H1'. inversion H1'; subst e'. rewrite H2 in H2'. inversion H2'; subst p.
+    cbn [keyset_verify] in Hk. unfold profile_verify in Hk.
+    destruct (profile_lookup store (a_client a) (se_kid e)) as [k2|] eqn:Hl; [|discriminate].
+    destruct (verify k2 e bytes) eqn:Hv2; [|discriminate]. inversion Hk; subst k'.
+    apply profile_lookup_in in Hl as [[[cl kid] kk] [Hin [Hcl [Hkid Hkk]]]]. cbn [fst snd] in *.
+    apply seqb_eq in Hcl. apply seqb_eq in Hkid. subst cl kid kk.
+    exists bytes, c, e, k2. repeat split; try assumption. now rewrite Hiss.
+  Qed.
+
+  (* ---------- the per-client storage key set: the storage designates the key ---------- *)
+  (* the key the storage returns for (client, kid of the header - possibly none)
+     decides; the key id written inside that JWK is no input *)
+  Theorem profile_keyset_complete : forall allowed client store t e p k,
+    tok_sigs t = [e] -> tok_payload t = Some p ->
+    string_in (se_alg e) (effective_algs allowed) = true ->
+    profile_lookup store client (se_kid e) = Some k -> verify k e p = true ->
+    check_signature verify allowed (KSProfile client store) t p = Ok (se_alg e).
+  Proof.
+    intros allowed client store t e p k Hs Hp Ha Hl Hv. unfold check_signature.
+    destruct t as [e' p'|sigs p'|]; cbn in Hs, Hp; try discriminate.
+    - inversion Hs; inversion Hp; subst. cbn [jose_parse]. rewrite Ha.
+      cbn [keyset_verify]. unfold profile_verify. now rewrite Hl, Hv, seqb_refl.
+    - inversion Hp; subst. cbn [jose_parse all_algs_allowed]. rewrite Ha. cbn [andb].
+      cbn [keyset_verify]. unfold profile_verify. now rewrite Hl, Hv, seqb_refl.
+  Qed.
+
+  Theorem profile_keyset_sound : forall allowed client store t p alg,
+    check_signature verify allowed (KSProfile client store) t p = Ok alg ->
+    exists e k, tok_sigs t = [e] /\ tok_payload t = Some p /\ alg = se_alg e
+      /\ profile_lookup store client (se_kid e) = Some k /\ verify k e p = true.
+  Proof.
+    intros allowed client store t p alg H.
+    pose proof H as H0. apply check_signature_sound in H0 as [e [k [H1 [H2 [H3 _]]]]].
+    apply check_signature_inv_gen in H as [e' [p' [k' [H1' [H2' Hk]]]]].
+    rewrite H1 in H1'. inversion H1'; subst e'. rewrite H2 in H2'. inversion H2'; subst p'.
+    cbn [keyset_verify] in Hk. unfold profile_verify in Hk.
+    destruct (profile_lookup store client (se_kid e)) as [k2|] eqn:Hl; [|discriminate].
+    destruct (verify k2 e p) eqn:Hv; [|discriminate].
+    exists e, k2. now repeat split.
+  Qed.
+
+  (* rewriting the key ids INSIDE the stored JWKs (registration untouched) changes
+     no answer, for any oracle that looks at type and material only *)
+  Definition rekid (f : jwk -> string) (store : list (string * string * jwk)) :=
+    map (fun x => (fst x, mkJwk (f (snd x)) (k_use (snd x)) (k_ty (snd x)) (k_mat (snd x)))) store.
+
+  Theorem profile_key_id_no_input : forall f allowed client store t p,
+    (forall k id e q, verify (mkJwk id (k_use k) (k_ty k) (k_mat k)) e q = verify k e q) ->
+    match check_signature verify allowed (KSProfile client (rekid f store)) t p,
+          check_signature verify allowed (KSProfile client store) t p with
+    | Ok a, Ok b => a = b
+    | Err a, Err b => a = b
+    | _, _ => False
+    end.
+  Proof.
+    intros f allowed client store t p Hv.
+    assert (Hl : forall kid, profile_lookup (rekid f store) client kid =
+                 match profile_lookup store client kid with
+                 | Some k => Some (mkJwk (f k) (k_use k) (k_ty k) (k_mat k)) | None => None end).
+    { intro kid. induction store as [|[[c i] k0] r IH]; cbn; [reflexivity|].
+      destruct ((c =s client) && (i =s kid)); [reflexivity | exact IH]. }
+    assert (Hk : forall e q, match keyset_verify verify (KSProfile client (rekid f store)) e q,
+                                   keyset_verify verify (KSProfile client store) e q with
+                             | Some _, Some _ | None, None => True | _, _ => False end).
+    { intros e q. cbn [keyset_verify]. unfold profile_verify. rewrite Hl.
+      destruct (profile_lookup store client (se_kid e)) as [k|]; [|exact I].
+      simpl. rewrite Hv. destruct (verify k e q); exact I. }
+    unfold check_signature.
+    destruct (jose_parse (effective_algs allowed) t) as [| |sigs signed]; try reflexivity.
+    destruct sigs as [|e [|e2 r]]; try reflexivity.
+    specialize (Hk e signed).
+    destruct (keyset_verify verify (KSProfile client (rekid f store)) e signed),
+             (keyset_verify verify (KSProfile client store) e signed); try contradiction; try reflexivity.
+    destruct (signed =s p); reflexivity.
   Qed.
 End Oracle.
 
@@ -729,15 +877,36 @@ Proof.
       apply check_signature_complete in Hc. congruence.
 Qed.
 
+(* the key set the model verifies with IS the configured one: for a request
+   object the consistency checks force iss = client of the authorization request *)
+Lemma trusted_keyset_run : forall k v ks t bytes c now0 c' alg,
+  step_wf k ks = true ->
+  outcome_claims (run_verifier sym_verify k v ks t (MidOk bytes c) now0) = Some (c', alg) ->
+  trusted_keyset k ks c = verifier_keyset k ks c.
+Proof.
+  intros k v ks t bytes c now0 c' alg Hwf H. destruct k as [| | |dg|a]; try reflexivity.
+  cbn [trusted_keyset verifier_keyset]. cbn [run_verifier] in H. cbn [step_wf] in Hwf.
+  destruct (parse_request_object sym_verify a (v_issuer v) ks t (MidOk bytes c)) as [c2 a2|c2 a2 e2|e2] eqn:Hr;
+    cbn in H; try discriminate.
+  - apply request_object_bound in Hr as [b2 [c0 [sa2 [Hm [_ [Hb _]]]]]]; [|exact Hwf].
+    inversion Hm; subst. now symmetry.
+  - exfalso. unfold parse_request_object in Hr.
+    repeat match type of Hr with context [andthen ?a _] => destruct a; cbn [andthen] in Hr; [discriminate|] end.
+    destruct (check_signature sym_verify [] (bind_profile ks (c_iss c)) t bytes); discriminate.
+Qed.
+
 Lemma verify_step_model : forall k v ks t m now0,
+  step_wf k ks = true ->
   verify_step_ok k v ks t m (run_verifier sym_verify k v ks t m now0) = true.
 Proof.
-  intros k v ks t m now0.
+  intros k v ks t m now0 Hwf.
   destruct (run_verifier sym_verify k v ks t m now0) as [c' alg|c' alg e|e] eqn:H; cbn [verify_step_ok]; [| |reflexivity].
   + assert (Ho : outcome_claims (run_verifier sym_verify k v ks t m now0) = Some (c', alg))
       by now rewrite H.
+    pose proof Ho as Ho2.
     apply each_verifier in Ho as [bytes [c [sa [Hm [Hc [Hs Ha]]]]]].
     unfold accept_ok. subst m c'. rewrite claims_eqb_refl.
+    rewrite (trusted_keyset_run _ _ _ _ _ _ _ _ _ Hwf Ho2).
     apply check_signature_believable in Hs as [Hg Hsa]. rewrite Hg. cbn [andb].
     (* the reported algorithm *)
     destruct k as [| | |dg|a]; cbn [run_verifier] in H; cbn [alg_reported].
@@ -784,7 +953,7 @@ Proof.
     * unfold accept_ok. subst m c'. rewrite claims_eqb_refl.
       cbn [verifier_algs verifier_keyset] in Hs.
       pose proof Hs as Hs2. apply check_signature_believable in Hs2 as [Hg Hsa].
-      cbn [verifier_algs verifier_keyset]. rewrite Hg. cbn [andb alg_reported].
+      cbn [verifier_algs verifier_keyset trusted_keyset]. rewrite Hg. cbn [andb alg_reported].
       unfold verify_id_token_hint in H.
       repeat match type of H with context [andthen ?a _] => destruct a; cbn [andthen] in H; [discriminate|] end.
       rewrite Hs in H.
@@ -801,24 +970,43 @@ Proof.
       destruct (check_signature sym_verify [] (bind_profile ks (c_iss c)) t bytes); discriminate.
 Qed.
 
-Theorem spec_model : forall i, spec i (model i) = true.
+Lemma provider_step_model : forall p store s,
+  provider_step_ok p store s (run_provider_step sym_verify p store s) = true.
 Proof.
-  intros [kid use alg keys|allowed ks t parsed|k v ks t m now0 now1|allowed skip steps|k v ks steps|p hint t m now0 now1|hint allowed ov calls]; cbn [model spec].
+  intros p store s. unfold provider_step_ok, run_provider_step.
+  destruct (ps_kind s); unfold run_provider_verifier.
+  - replace (configured_keyset p false) with (provider_keyset p false) by reflexivity.
+    now apply verify_step_model.
+  - replace (configured_keyset p true) with (provider_keyset p true) by reflexivity.
+    now apply verify_step_model.
+  - now apply verify_step_model.
+Qed.
+
+Theorem spec_model : forall i, wf i = true -> spec i (model i) = true.
+Proof.
+  intros [kid use alg keys|allowed ks t parsed|k v ks t m now0 now1|allowed skip steps|k v ks steps|p hint t m now0 now1|ks t parsed|p store steps|hint allowed ov calls] Hwf;
+    cbn [model spec]; cbn [wf] in Hwf.
   - apply find_spec_model.
   - destruct (check_signature sym_verify allowed ks t parsed) as [alg|e] eqn:H.
     + apply check_signature_believable in H as [Hg Ha]. rewrite Hg. subst alg. now rewrite seqb_refl.
     + destruct (sig_complete allowed ks t parsed) eqn:Hc; [|reflexivity].
       apply check_signature_complete in Hc. congruence.
-  - apply verify_step_model.
+  - now apply verify_step_model.
   - apply remote_seq_model.
   - induction steps as [|s r IH]; cbn [map verify_seq_spec]; [reflexivity|].
-    now rewrite verify_step_model, IH.
+    now rewrite (verify_step_model _ _ _ _ _ _ Hwf), IH.
   - unfold run_provider_verifier.
     replace (configured_keyset p hint) with (provider_keyset p hint)
       by (unfold configured_keyset, provider_keyset; destruct hint; reflexivity).
-    apply verify_step_model.
+    apply verify_step_model. now destruct hint.
+  - destruct (check_signature sym_verify [] ks t parsed) as [alg|e] eqn:H.
+    + apply check_signature_believable in H as [Hg Ha]. now rewrite Hg.
+    + destruct (sig_complete [] ks t parsed) eqn:Hc; [|reflexivity].
+      apply check_signature_complete in Hc. congruence.
+  - induction steps as [|s r IH]; cbn [map provider_seq_spec]; [reflexivity|].
+    now rewrite provider_step_model, IH.
   - induction calls as [|c r IH]; cbn [map tenants_spec]; [reflexivity|].
-    now rewrite verify_step_model, IH.
+    rewrite verify_step_model, IH; [reflexivity | now destruct hint].
 Qed.
 
 Lemma hint_at_issuer : forall verify (hint : bool) v ks t m now c' alg,
@@ -873,6 +1061,70 @@ Proof.
   intros verify p hint t m now c' alg H. unfold run_provider_verifier in H.
   apply payload_binding in H as [bytes [c [e [key [H1 [H2 [H3 [H4 [H5 [H6 [H7 H8]]]]]]]]]]].
   exists bytes, e, key. destruct hint; cbn in *; subst; repeat split; assumption.
+Qed.
+
+(* ---------- one provider, several calls ---------- *)
+(* what justifies claims handed back at a step of kind k: the key set and
+   allow-list configured for THAT kind; for an assertion the key the storage has
+   registered for (the issuer the assertion names, kid of its header) *)
+Definition step_justified (verify : jwk -> sigentry -> string -> bool) (p : provider)
+           (store : list (string * string * jwk)) (s : pstep) (c' : claims) : Prop :=
+  exists bytes e key,
+    ps_mid s = MidOk bytes c' /\ tok_sigs (ps_tok s) = [e] /\ tok_payload (ps_tok s) = Some bytes
+    /\ verify key e bytes = true
+    /\ match ps_kind s with
+       | PAssertion => In (c_iss c', se_kid e, key) store /\ c_sub c' = c_iss c'
+       | PAccess =>
+           string_in (se_alg e) (effective_algs (p_at_algs p)) = true
+           /\ In key (ks_keys (match p_at_keyset p with Some k => k | None => KSOpenID (p_storage_keys p) end))
+       | PHint =>
+           string_in (se_alg e) (effective_algs (p_hint_algs p)) = true
+           /\ In key (ks_keys (match p_hint_keyset p with Some k => k | None => KSOpenID (p_storage_keys p) end))
+       end.
+
+Lemma assertion_registered_key : forall verify v store t m now c' alg,
+  outcome_claims (run_verifier verify (VJWTAssertion false) v (KSProfile "" store) t m now) = Some (c', alg) ->
+  exists bytes e key,
+    m = MidOk bytes c' /\ tok_sigs t = [e] /\ tok_payload t = Some bytes
+    /\ verify key e bytes = true /\ In (c_iss c', se_kid e, key) store /\ c_sub c' = c_iss c'.
+Proof.
+  intros verify v store t m now c' alg H. pose proof H as H0.
+  apply payload_binding in H0 as [bytes [c [e [key [H1 [H2 [H3 [H4 [_ [_ [H7 H8]]]]]]]]]]].
+  cbn [returned_claims] in H2. subst c m.
+  cbn [verifier_keyset bind_profile trusted_key] in H7.
+  apply existsb_exists in H7 as [[[cl kid] kk] [Hin Hx]]. cbn [fst snd] in Hx.
+  apply andb_true_iff in Hx as [Hx Hk]. apply andb_true_iff in Hx as [Hc Hi].
+  apply seqb_eq in Hc. apply seqb_eq in Hi. apply jwk_eqb_eq in Hk. subst cl kid kk.
+  exists bytes, e, key. repeat split; try assumption.
+  cbn [run_verifier] in H. unfold verify_jwt_assertion in H.
+  repeat match type of H with
+         | context [andthen (if ?b then None else Some ESubjectIssuer) _] =>
+             destruct b eqn:Hsub; cbn [andthen outcome_claims] in H; [|discriminate]
+         | context [andthen ?a _] => destruct a; cbn [andthen outcome_claims] in H; [discriminate|]
+         end.
+  cbn [orb] in Hsub. apply seqb_eq in Hsub. now symmetry.
+Qed.
+
+(* ONE provider, any sequence of calls to the verifiers it hands out: claims handed
+   back at position n are justified by the configuration of the verifier kind of
+   step n alone - no earlier step (a verifier of another kind handed out first, a
+   key looked up for another client) is an input *)
+Theorem provider_seq_justified : forall verify p store steps n s o c' alg,
+  nth_error steps n = Some s ->
+  nth_error (map (run_provider_step verify p store) steps) n = Some o ->
+  outcome_claims o = Some (c', alg) ->
+  step_justified verify p store s c'.
+Proof.
+  intros verify p store steps n s o c' alg Hs Ho Hc.
+  rewrite nth_error_map, Hs in Ho. cbn in Ho. inversion Ho; subst o. clear Ho.
+  unfold run_provider_step in Hc. unfold step_justified.
+  destruct (ps_kind s) eqn:Hk.
+  - apply (provider_own_keyset verify p false) in Hc as [bytes [e [key [H1 [H2 [H3 [H4 [H5 H6]]]]]]]].
+    exists bytes, e, key. repeat split; assumption.
+  - apply (provider_own_keyset verify p true) in Hc as [bytes [e [key [H1 [H2 [H3 [H4 [H5 H6]]]]]]]].
+    exists bytes, e, key. repeat split; assumption.
+  - apply assertion_registered_key in Hc as [bytes [e [key [H1 [H2 [H3 [H4 [H5 H6]]]]]]]].
+    exists bytes, e, key. repeat split; assumption.
 Qed.
 
 (* ---------- one instance, several tokens: nothing carries over ---------- *)
@@ -1053,4 +1305,61 @@ Example smuggling_nonvacuous :
   run_verifier sym_verify VAccessToken ex_verifier (KSOpenID (Some [ex_key]))
                (TJson [ex_entry] "P") (MidOk "EVIL" ex_claims) 1900000000000000000
   = Reject ESigPayload.
+Proof. vm_compute. reflexivity. Qed.
+
+(* ---------- round 11: whose request object, and the storage key set ---------- *)
+Definition ex_evil_key : jwk := mkJwk "k1" "sig" KRsa 1.
+Definition ex_evil_entry : sigentry := mkSig "RS256" "k1" "{""alg"":""RS256""}" (SigBy 1 "RS256" "{""alg"":""RS256""}" "P").
+Definition ex_store : list (string * string * jwk) := [("victim", "k1", ex_key); ("evil", "k1", ex_evil_key)].
+Definition ex_ro (iss cid : string) : claims := mkClaims iss "" ["op"] "" 0 0 0 "n" "" "" cid "code" "st".
+Definition ex_authreq : authreq := mkAuthReq "victim" "code" "n0" "s0".
+Definition ex_op : verifier := mkVerifier "op" "" 0 0 0 None None [].
+
+(* the victim's own object is believed; an object naming client "evil" as issuer
+   (no client_id claim) and signed with evil's registered key is not; the guard holds *)
+Example request_object_nonvacuous :
+  run_verifier sym_verify (VRequestObject ex_authreq) ex_op (KSProfile "" ex_store)
+               (TCompact ex_entry "P") (MidOk "P" (ex_ro "victim" "victim")) 0
+  = Accept (ro_project ex_authreq (ex_ro "victim" "victim")) ""
+  /\ run_verifier sym_verify (VRequestObject ex_authreq) ex_op (KSProfile "" ex_store)
+               (TCompact ex_evil_entry "P") (MidOk "P" (ex_ro "evil" "")) 0
+  = Reject EReq
+  /\ wf (IVerify (VRequestObject ex_authreq) ex_op (KSProfile "" ex_store)
+                 (TCompact ex_evil_entry "P") (MidOk "P" (ex_ro "evil" "")) 0 0) = true
+  /\ spec (IVerify (VRequestObject ex_authreq) ex_op (KSProfile "" ex_store)
+                   (TCompact ex_evil_entry "P") (MidOk "P" (ex_ro "evil" "")) 0 0)
+          (OVerify (Accept (ro_project ex_authreq (ex_ro "evil" "")) "")) = false.
+Proof. vm_compute. repeat split; reflexivity. Qed.
+
+(* a token WITHOUT key id, the storage answers the kid-less lookup with the
+   client's key, which carries its own id "key-1": accepted; a foreign key: rejected *)
+Definition ex_kidless : sigentry := mkSig "RS256" "" "{""alg"":""RS256""}" (SigBy 0 "RS256" "{""alg"":""RS256""}" "P").
+Definition ex_kidless_foreign : sigentry := mkSig "RS256" "" "{""alg"":""RS256""}" (SigBy 1 "RS256" "{""alg"":""RS256""}" "P").
+Example profile_keyset_nonvacuous :
+  check_signature sym_verify [] (KSProfile "svc" [("svc", "", mkJwk "key-1" "sig" KRsa 0)]) (TCompact ex_kidless "P") "P" = Ok "RS256"
+  /\ check_signature sym_verify [] (KSProfile "svc" [("svc", "", mkJwk "key-1" "sig" KRsa 0)]) (TCompact ex_kidless_foreign "P") "P" = Err ESigInvalid
+  /\ spec (IProfileSig (KSProfile "svc" [("svc", "", mkJwk "key-1" "sig" KRsa 0)]) (TCompact ex_kidless "P") "P") (OSig (Err ESigInvalid)) = false.
+Proof. vm_compute. repeat split; reflexivity. Qed.
+
+(* the symbolic oracle meets the hypothesis of profile_key_id_no_input *)
+Example key_id_no_input_nonvacuous : forall k id e q,
+  sym_verify (mkJwk id (k_use k) (k_ty k) (k_mat k)) e q = sym_verify k e q.
+Proof. intros k id e q. reflexivity. Qed.
+
+(* one provider whose hint key set and access-token key set differ: a hint signed
+   by the hint key is accepted, then an access token signed by that same key is
+   rejected; client svc2 (kid "a") authenticates, then an assertion naming client
+   svc under kid "2a" signed with svc2's key is rejected *)
+Definition ex_prov : provider :=
+  mkProvider "iss" (Some [ex_key]) None (Some (KSOpenID (Some [ex_evil_key]))) [] [].
+Definition ex_assert (who : string) : claims := mkClaims who who ["iss"] "" 2000000000 1899999990 0 "" "" "" "" "" "".
+Definition ex_sig (kid : string) (mat : N) : sigentry :=
+  mkSig "RS256" kid "{""alg"":""RS256""}" (SigBy mat "RS256" "{""alg"":""RS256""}" "P").
+Example provider_seq_nonvacuous :
+  map (run_provider_step sym_verify ex_prov [("svc2", "a", mkJwk "a" "sig" KRsa 1)])
+      [mkPStep PHint (TCompact ex_evil_entry "P") (MidOk "P" ex_claims) 1900000000000000000 0;
+       mkPStep PAccess (TCompact ex_evil_entry "P") (MidOk "P" ex_claims) 1900000000000000000 0;
+       mkPStep PAssertion (TCompact (ex_sig "a" 1) "P") (MidOk "P" (ex_assert "svc2")) 1900000000000000000 0;
+       mkPStep PAssertion (TCompact (ex_sig "2a" 1) "P") (MidOk "P" (ex_assert "svc")) 1900000000000000000 0]
+  = [Accept ex_claims "RS256"; Reject ESigInvalid; Accept (ex_assert "svc2") ""; Reject ESigInvalid].
 Proof. vm_compute. reflexivity. Qed.
